@@ -47,7 +47,15 @@ def _alarm(signum, frame):
 
 def make_obj(o):
     import rtamt
-    fac = getattr(rtamt, o.get("factory", "StlDenseTimeSpecification" if o.get("dense") else "StlDiscreteTimeSpecification"))
+    if o.get("factory") == "ltl_online":
+        # the LTL front end: LTL grammar / AST / pastifier with the discrete-time online interpreter
+        from rtamt.syntax.ast.parser.ltl.specification_parser import LtlAst
+        from rtamt.spec.abstract_specification import AbstractOnlineSpecification
+        from rtamt.semantics.stl.discrete_time.online.interpreter import StlDiscreteTimeOnlineInterpreter
+        from rtamt.pastifier.ltl.pastifier import LtlPastifier
+        fac = lambda: AbstractOnlineSpecification(LtlAst(), StlDiscreteTimeOnlineInterpreter(), pastifier=LtlPastifier())
+    else:
+        fac = getattr(rtamt, o.get("factory", "StlDenseTimeSpecification" if o.get("dense") else "StlDiscreteTimeSpecification"))
     sem = o.get("mode", {}).get("sem", "standard")
     if sem != "standard":
         semv = {"out_rob": rtamt.Semantics.OUTPUT_ROBUSTNESS, "in_rob": rtamt.Semantics.INPUT_ROBUSTNESS,
